@@ -33,4 +33,6 @@ Dags23 == Dags({"r1", "r2", "r3", "zz"}, 2, 2)
 Dags31 == Dags({"r1", "r2", "zz"}, 3, 1) \cup Dags22
 Beh3 == {"ok", "ret", "fail"}
 Beh2 == {"ok", "fail"}
+BehF == {"ok", "fault"}
+BehF3 == {"ok", "ret", "fault"}
 =============================================================================
